@@ -62,14 +62,20 @@ fn strat(topos: Vec<Topology>, max_prefix: usize, max_burst: usize, max_steps: u
 		// then vacuous by their own condition, but races between a preimage claim and a timeout really happen)
 		prop_oneof![6 => 0u8..=4, 4 => 3u8..=18, 2 => 19u8..=60],
 		proptest::bool::weighted(0.25),
+		prop_oneof![
+			4 => Just(Traj::Flat),
+			2 => (253u32..3_000, 2u8..40).prop_map(|(start, pct)| Traj::Rising { start, pct }),
+			3 => (1_000u32..30_000, 2u8..40).prop_map(|(start, pct)| Traj::Falling { start, pct }),
+			2 => (253u32..2_000, 2_000u32..40_000, 0u8..30, 1u8..12).prop_map(|(base, peak, at, len)| Traj::Spike { base, peak, at, len }),
+		],
 	)
-		.prop_map(|(mut spec, styles, prefix, burst, settle, chan, close, steps, max_delay, tail_reverse)| {
+		.prop_map(|(mut spec, styles, prefix, burst, settle, chan, close, steps, max_delay, tail_reverse, traj)| {
 			spec.deferred = false;
 			spec.node_styles = styles;
 			let mut ops = prefix;
 			ops.extend(burst);
 			ops.extend(settle);
-			Case { spec, ops, chan, close, steps, max_delay, tail_reverse }
+			Case { spec, ops, chan, close, steps, max_delay, tail_reverse, traj }
 		})
 }
 
